@@ -140,6 +140,19 @@ def run(tier, seed):
                 if set(ref.keys()) != set(res[l].keys()) or any(not np.array_equal(np.asarray(ref[k]), np.asarray(res[l][k])) for k in ref.keys()):
                     ck.violation({"clause": "lookup_table", "lmax": lmax, "l": l}, "inclination lookup(max l=%d, obliquity=%s)[%d] differs from calc_inclin_l%d%s" % (
                         lmax, use_obl, l, l, "" if use_obl else "_off"), {})
+    # every multi-degree lookup helper, evaluated as plain Python (NUMBA_DISABLE_JIT) on exact arguments, returns the per-degree tables
+    import os
+    pr = core.run_py(["-m", "harness.lookup_nojit"], timeout=900, env={"NUMBA_DISABLE_JIT": "1", "NUMBA_CACHE_DIR": os.environ.get("NUMBA_CACHE_DIR", "")})
+    line = [x for x in pr.stdout.splitlines() if x.startswith("RESULT ")]
+    if pr.returncode != 0 or not line:
+        raise MachineryError("lookup_nojit failed: %s" % (pr.stderr[-800:]))
+    lk = json.loads(line[0][7:])
+    ck.notes["lookup_helpers_checked_without_jit"] = lk["helpers"]
+    for b in lk["bad"]:
+        if b["kind"] == "inclination":
+            ck.case(("lookup-nojit", json.dumps(b, sort_keys=True)), True)
+            ck.violation({"clause": "lookup_table", "lmax": b.get("lmax"), "N": b.get("N"), "l": b.get("l")}, "%s lookup helper (max l=%s%s): %s" % (
+                b["kind"], b.get("lmax"), (", N=%s" % b["N"]) if "N" in b else "", b["what"]), b)
     ck.cov["traces_validated_against_impl"] = 199
     ck.notes["worst_relative_deviation"] = worst
     for k in [(2, 0, 1), (6, 3, 3), (7, 7, 0)]:
